@@ -12,6 +12,8 @@ import Dashu.Proofs.NT.PrimRoot
 import Dashu.Proofs.NT.PrimRootU16
 import Dashu.Proofs.NT.PrimRootU128
 import Dashu.Proofs.NT.LehmerBuf
+import Dashu.Proofs.NT.LehmerBufB
+import Dashu.Proofs.NT.LehmerBufC
 /-
   C12 — gcd, integer roots, integer logarithms and `remove` satisfy their defining (in)equalities;
   the only panics are the documented ones.
@@ -562,5 +564,37 @@ example : (match lehmerExtLoop 64 ((2 ^ 200 + 12345) + (3 ^ 120 + 7) + 1) (2 ^ 2
     | .ok (x, y, t0, t1, _) => decide (t1 * x + t0 * y = 2 ^ 200 + 12345 ∧ 0 < y ∧ 1 < t0)
     | .error _ => false) = true := by
   decide +kernel
+
+/-- cofactor bounds of the primitive `gcd_ext` of dashu-base (`unchecked_gcd_ext` through the common power of
+    two and the `== 1` shortcuts) on non-zero operands: `|s|·g ≤ b`, `|t|·g ≤ a` -/
+theorem gcd_ext_prim_cofactor_bounds {a b : Nat} (ha : 0 < a) (hb : 0 < b) {g : Nat} {s t : Int}
+    (h : xgcdPrim a b = .ok (g, s, t)) :
+    (-(b : Int) ≤ s * g ∧ s * g ≤ b) ∧ (-(a : Int) ≤ t * g ∧ t * g ≤ a) :=
+  xgcdPrim_bound ha hb h
+
+/-- **buffer-length claim of `lehmer::gcd_ext_in_place`, the returned coefficient `|b|`** (the exit
+    of the main loop with a last word `y > 0`; the exit with `y = 0` is covered by `gcd_ext_b_fits` below).
+    `|b| = |cx|·(t0 + q·t1) + |cy|·t1` with `(g, cx, cy)` the single-word `gcd_ext` of `(x mod y, y)` satisfies
+    `|b|·g ≤ lhs`: it fits `lhs_len` words and the final `debug_assert_zero!`s hold. -/
+theorem gcd_ext_b_fits_partial (W : Nat) (hW : 0 < W) (lhs rhs : Nat) (hle : rhs ≤ lhs)
+    {x y t0 t1 : Nat} {sw : Bool}
+    (hloop : lehmerExtLoop W (lhs + rhs + 1) lhs rhs 0 1 false = .ok (x, y, t0, t1, sw)) (hy : 0 < y)
+    {g bb : Nat} {neg : Bool} (h : lehmerExt W lhs rhs = .ok (g, bb, neg)) :
+    bb * g ≤ lhs ∧ bb ≤ lhs ∧ bb < 2 ^ (W * wordLen W lhs) :=
+  lehmerExt_b_fits W hW lhs rhs hle hloop hy h
+
+/-- **buffer-length claim of `lehmer::gcd_ext_in_place`, the returned coefficient `|b|`, every exit**: a committed
+    Lehmer step leaves both combined values strictly positive (`b ≠ 0` ⇒ `a·x − b·y > 0`, `d·y − c·x > 0`), so the
+    main loop can end with `y = 0` only after a Euclidean step, where `t0` is the previous `t1 ≤ lhs/x`; with
+    `gcd_ext_b_fits_partial` for the exit with a last word: `|b| ≤ lhs`, it fits the `lhs_len` words of `lhs`. -/
+theorem gcd_ext_b_fits (W : Nat) (hW : 0 < W) (lhs rhs : Nat) (hle : rhs ≤ lhs)
+    {g bb : Nat} {neg : Bool} (h : lehmerExt W lhs rhs = .ok (g, bb, neg)) :
+    bb ≤ lhs ∧ bb < 2 ^ (W * wordLen W lhs) :=
+  lehmerExt_b_le W hW lhs rhs hle h
+
+/-- the hypotheses are satisfiable: the kernel returns on multi-word operands (`lehmer_gcd_ext_correct`) -/
+example : ∃ g bb neg, lehmerExt 64 (2 ^ 200 + 12345) (3 ^ 120 + 7) = .ok (g, bb, neg) ∧ bb ≤ 2 ^ 200 + 12345 := by
+  obtain ⟨⟨g, bb, neg⟩, h, _⟩ := lehmer_gcd_ext_correct 64 (by decide) (2 ^ 200 + 12345) (3 ^ 120 + 7) (by decide +kernel) (by decide +kernel)
+  exact ⟨g, bb, neg, h, (gcd_ext_b_fits 64 (by decide) _ _ (by decide +kernel) h).1⟩
 
 end Dashu.Props.C12
